@@ -621,6 +621,22 @@ fn sc_liquidity(t: &mut Tracer, ss_decs: [u8; 2], name: &str) {
     let all = w.s.bal(&lp, &lp2);
     w.withdraw(&lp, "o.cp2", &[coin(all, lp2.clone())]); // the whole circulating supply: only the locked minimum remains
     w.swap(&a, "o.cp2", &[coin(1000, "uusdt")], "uweth", None, half, None);
+    // the limit of ten open positions holds for positions the pool manager opens for a user: ten on this pool's LP (a01..a10),
+    // then two on another pool's LP (z1, z2) that sort after them; one of the two is closed directly afterwards
+    {
+        let many = w.user(3);
+        let fa = w.s.farm.clone();
+        for k in 1..=10 {
+            w.provide(&many, "o.cp1", &sorted(vec![coin(50 * d(6), "uusdc"), coin(70 * d(6), "uusdt")]), None, Some(DAY), Some(&format!("a{k:02}")), None, None);
+        }
+        for id in ["z1", "z2"] {
+            w.provide(&many, "o.cp0", &sorted(vec![coin(1_000_000, "uom"), coin(2_000_000, "uusd")]), None, Some(DAY), Some(id), None, None);
+        }
+        let r = w.s.exec(&many, &fa, &mantra_dex_std::farm_manager::ExecuteMsg::ManagePosition { action: mantra_dex_std::farm_manager::PositionAction::Close { identifier: "u-z1".into(), lp_asset: None } }, &[]);
+        let post = w.s.snapshot(w.mask);
+        w.t.emit("fm_direct", json!({"ok": r.is_ok(), "post": post, "note": "closed u-z1 in the farm manager"}));
+        w.provide(&many, "o.cp1", &sorted(vec![coin(50 * d(6), "uusdc"), coin(70 * d(6), "uusdt")]), None, Some(DAY), Some("u-a01"), None, None);
+    }
 }
 
 /// pools created with denoms in non-alphabetical order: deposits with a tolerance, then swaps
